@@ -268,6 +268,12 @@ def solver_boundary(run, n):
                 break
 
 
+def extract(run):
+    from harness import extract as X
+
+    return X.generate("C16")
+
+
 def explore(run, driver, budget):
     run.info["rule"] = RULE
     n = {"quick": 250, "thorough": 12000, "search": 2000}[budget]
